@@ -10,12 +10,17 @@ package filesystem
 // the same conditions as in Worktree.fillEncodedObjectFromFile (git convert.c
 // crlf_to_git): statistics of the whole file that is hashed next, not binary.
 // Known finding F24: no has_crlf_in_index rule.
+// Property C01, worktree side: the id a worktree file is compared by is
+// computed with the repository's object format (call-site obligation on the
+// hasher: the format handed to the node, SHA-1 only when none was given).
 //gvc:func (*node).doCalculateHashForRegular
-//gvc:  props C31
+//gvc:  props C31 C01
 //gvc:  theory int
 //gvc:  opt coarse
 //gvc:  opt frame args
+//gvc:  opt inline
 //gvc:  requires nn: n.fs != nil
+//gvc:  sink NewHasher requires format: n.options != nil && len(n.options.ObjectFormat) > 0 ==> same_string(arg0, n.options.ObjectFormat)
 //gvc:  sink NewLFWriter requires asgit: !spec_is_binary(stat.NUL, stat.LoneCR, stat.Printable, stat.NonPrintable)
 //gvc:  sink NewLFWriter requires whole: f.#pos == 0 && forall(k, 0, f.#n, f.#data[k] != 0 && (f.#data[k] == '\r' ==> k + 1 < f.#n && f.#data[k + 1] == '\n'))
 //gvc:  sink NewLFWriter requires safecrlf: stat.CRLF == 0 || !spec_index_has_cr(strid(n.path))
